@@ -10,6 +10,7 @@ mod pool;
 mod net20;
 mod net21;
 mod ows;
+mod sockio;
 mod time;
 
 pub fn lookup(name: &str) -> Option<AreaFn> {
@@ -22,6 +23,7 @@ pub fn lookup(name: &str) -> Option<AreaFn> {
         "pool" => Some(pool::run),
         "net20" => Some(net20::run),
         "net21" => Some(net21::run),
+        "sockio" => Some(sockio::run),
         _ => None,
     }
 }
